@@ -36,7 +36,9 @@ LEMMA StepType == TypeOK /\ [SessNext]_sessVars => TypeOK'
   BY <1>9 DEF Insert
 <1>10. ASSUME NEW v \in Vals, Delete(v) PROVE TypeOK'
   BY <1>10 DEF Delete
-<1> QED BY <1>1, <1>2, <1>3, <1>4, <1>5, <1>6, <1>7, <1>8, <1>9, <1>10 DEF SessNext
+<1>11. CASE OtherTable
+  BY <1>11 DEF OtherTable
+<1> QED BY <1>1, <1>2, <1>3, <1>4, <1>5, <1>6, <1>7, <1>8, <1>9, <1>10, <1>11 DEF SessNext
 
 \* the action formulas inside the three temporal properties
 IsoStep == \A d \in dbs : d # cur => content'[d] = content[d]
@@ -67,7 +69,9 @@ LEMMA StepProps == TypeOK /\ [SessNext]_sessVars => IsoStep /\ ErrStep /\ PauseS
   BY <1>9 DEF Insert
 <1>10. ASSUME NEW v \in Vals, Delete(v) PROVE IsoStep /\ ErrStep /\ PauseStep
   BY <1>10 DEF Delete
-<1> QED BY <1>1, <1>2, <1>3, <1>4, <1>5, <1>6, <1>7, <1>8, <1>9, <1>10 DEF SessNext
+<1>11. CASE OtherTable
+  BY <1>11 DEF OtherTable
+<1> QED BY <1>1, <1>2, <1>3, <1>4, <1>5, <1>6, <1>7, <1>8, <1>9, <1>10, <1>11 DEF SessNext
 
 THEOREM Promises == Spec => /\ []TypeOK
                             /\ [][IsoStep]_sessVars /\ [][ErrStep]_sessVars /\ [][PauseStep]_sessVars
